@@ -10,6 +10,7 @@ the index box `ijkList`, the `(1,1,1)` shortcut, the scaling behaviour of the la
 -/
 namespace DS.Expand
 open DS
+set_option linter.unusedSectionVars false
 
 /-! ### the index box -/
 
@@ -142,5 +143,429 @@ theorem supercell_eq (S : Stru K β) {l m n : Nat} (hl : 1 ≤ l) (hm : 1 ≤ m)
   · rfl
 
 end field
+
+/-! ### Cartesian images, two-step rearrangement -/
+
+section cart
+variable {K β : Type} [Field K] [Elem K]
+
+/-- Cartesian position of an image in the multiplied cell = Cartesian position of the parent in the
+original cell + `i·a⃗ + j·b⃗ + k·c⃗` (rows of the original `base`) -/
+theorem image_cart (L : Cell K) (a : Atom K β) {l m n : Nat} (hl : (l : K) ≠ 0) (hm : (m : K) ≠ 0)
+    (hn : (n : K) ≠ 0) (t : Nat × Nat × Nat) :
+    (L.scale l m n).cartesian (image l m n a t).xyz =
+      (L.cartesian a.xyz).add ((Vec3.smul (t.1 : K) L.base.row1).add
+        ((Vec3.smul (t.2.1 : K) L.base.row2).add (Vec3.smul (t.2.2 : K) L.base.row3))) := by
+  simp only [Cell.cartesian, base_scale, image, Mat3.vecMul, Mat3.mul, diag, Vec3.add, Vec3.smul,
+    Mat3.row1, Mat3.row2, Mat3.row3, Vec3.mk.injEq]
+  refine ⟨?_, ?_, ?_⟩ <;> field_simp <;> ring
+
+/-- a site given in the multiplied cell as `(x + n)/mno` is the point `x + n` of the original cell -/
+theorem cart_scale_div (L : Cell K) {l m n : Nat} (hl : (l : K) ≠ 0) (hm : (m : K) ≠ 0)
+    (hn : (n : K) ≠ 0) (u : Vec3 K) :
+    (L.scale l m n).cartesian ⟨u.x / l, u.y / m, u.z / n⟩ = L.cartesian u := by
+  simp only [Cell.cartesian, base_scale, Mat3.vecMul, Mat3.mul, diag, Vec3.mk.injEq]
+  refine ⟨?_, ?_, ?_⟩ <;> field_simp <;> ring
+end cart
+
+section twostep
+variable {K β : Type} [Field K]
+
+/-- index of the one-step image that a two-step image `(t₁ then t₂)` lands on -/
+def comb (l m n : Nat) (t1 t2 : Nat × Nat × Nat) : Nat × Nat × Nat :=
+  (t1.1 + l * t2.1, t1.2.1 + m * t2.2.1, t1.2.2 + n * t2.2.2)
+
+theorem image_image (a : Atom K β) {l1 m1 n1 l2 m2 n2 : Nat} (h1 : (l1 : K) ≠ 0) (h2 : (m1 : K) ≠ 0)
+    (h3 : (n1 : K) ≠ 0) (h4 : (l2 : K) ≠ 0) (h5 : (m2 : K) ≠ 0) (h6 : (n2 : K) ≠ 0)
+    (t1 t2 : Nat × Nat × Nat) :
+    image l2 m2 n2 (image l1 m1 n1 a t1) t2
+      = image (l1 * l2) (m1 * m2) (n1 * n2) a (comb l1 m1 n1 t1 t2) := by
+  simp only [image, comb, Atom.mk.injEq, Vec3.mk.injEq, and_true]
+  push_cast
+  refine ⟨?_, ?_, ?_⟩ <;> field_simp <;> ring
+
+theorem comb1_lt {l1 l2 i1 i2 : Nat} (h1 : i1 < l1) (h2 : i2 < l2) : i1 + l1 * i2 < l1 * l2 := by
+  calc i1 + l1 * i2 < l1 + l1 * i2 := by omega
+    _ = l1 * (i2 + 1) := by ring
+    _ ≤ l1 * l2 := Nat.mul_le_mul_left _ h2
+
+theorem comb1_inj {l1 i1 i2 j1 j2 : Nat} (h1 : i1 < l1) (h2 : j1 < l1)
+    (h : i1 + l1 * i2 = j1 + l1 * j2) : i1 = j1 ∧ i2 = j2 := by
+  have hm := congrArg (· % l1) h
+  have hd := congrArg (· / l1) h
+  simp only [Nat.add_mul_mod_self_left, Nat.mod_eq_of_lt h1, Nat.mod_eq_of_lt h2] at hm
+  have hpos : 0 < l1 := by omega
+  simp only [Nat.add_mul_div_left _ _ hpos, Nat.div_eq_of_lt h1, Nat.div_eq_of_lt h2, Nat.zero_add] at hd
+  exact ⟨hm, hd⟩
+
+theorem comb1_surj {l1 l2 i : Nat} (hpos : 0 < l1) (h : i < l1 * l2) :
+    i % l1 < l1 ∧ i / l1 < l2 ∧ i % l1 + l1 * (i / l1) = i :=
+  ⟨Nat.mod_lt _ hpos, Nat.div_lt_of_lt_mul h, Nat.mod_add_div i l1⟩
+
+theorem comb_perm {l1 m1 n1 : Nat} (l2 m2 n2 : Nat) (h1 : 0 < l1) (h2 : 0 < m1) (h3 : 0 < n1) :
+    ((ijkList l1 m1 n1).flatMap fun t1 => (ijkList l2 m2 n2).map (comb l1 m1 n1 t1)).Perm
+      (ijkList (l1 * l2) (m1 * m2) (n1 * n2)) := by
+  refine (List.perm_ext_iff_of_nodup ?_ (nodup_ijkList _ _ _)).2 ?_
+  · refine List.nodup_flatMap.2 ⟨fun t1 ht1 => ?_, ?_⟩
+    · refine (nodup_ijkList _ _ _).map_on ?_
+      rintro ⟨a, b, c⟩ _ ⟨a', b', c'⟩ _ h
+      obtain ⟨x, y, z⟩ := t1
+      have ht := mem_ijkList.1 ht1
+      simp only [comb, Prod.mk.injEq] at h ht ⊢
+      exact ⟨(comb1_inj ht.1 ht.1 h.1).2, (comb1_inj ht.2.1 ht.2.1 h.2.1).2, (comb1_inj ht.2.2 ht.2.2 h.2.2).2⟩
+    · refine (nodup_ijkList _ _ _).imp_of_mem ?_
+      rintro ⟨x, y, z⟩ ⟨x', y', z'⟩ hx hx' hne
+      have ht := mem_ijkList.1 hx
+      have ht' := mem_ijkList.1 hx'
+      simp only [Function.onFun, List.disjoint_left, List.mem_map]
+      rintro _ ⟨⟨a, b, c⟩, _, rfl⟩ ⟨⟨a', b', c'⟩, _, h⟩
+      simp only [comb, Prod.mk.injEq] at h ht ht'
+      apply hne
+      rw [(comb1_inj ht'.1 ht.1 h.1).1, (comb1_inj ht'.2.1 ht.2.1 h.2.1).1, (comb1_inj ht'.2.2 ht.2.2 h.2.2).1]
+  · rintro ⟨i, j, k⟩
+    simp only [List.mem_flatMap, List.mem_map, mem_ijkList]
+    constructor
+    · rintro ⟨⟨x, y, z⟩, ht1, ⟨a, b, c⟩, ht2, h⟩
+      simp only [comb, Prod.mk.injEq] at h ht1 ht2
+      obtain ⟨rfl, rfl, rfl⟩ := h
+      exact ⟨comb1_lt ht1.1 ht2.1, comb1_lt ht1.2.1 ht2.2.1, comb1_lt ht1.2.2 ht2.2.2⟩
+    · rintro ⟨hi, hj, hk⟩
+      obtain ⟨a1, a2, a3⟩ := comb1_surj h1 hi
+      obtain ⟨b1, b2, b3⟩ := comb1_surj h2 hj
+      obtain ⟨c1, c2, c3⟩ := comb1_surj h3 hk
+      exact ⟨(i % l1, j % m1, k % n1), ⟨a1, b1, c1⟩, (i / l1, j / m1, k / n1),
+        ⟨a2, b2, c2⟩, by simp only [comb, a3, b3, c3]⟩
+
+
+theorem two_step_images (a : Atom K β) {l1 m1 n1 l2 m2 n2 : Nat} (h1 : 0 < l1) (h2 : 0 < m1)
+    (h3 : 0 < n1) (h4 : 0 < l2) (h5 : 0 < m2) (h6 : 0 < n2) [CharZero K] :
+    ((images l1 m1 n1 a).flatMap (images l2 m2 n2)).Perm (images (l1 * l2) (m1 * m2) (n1 * n2) a) := by
+  have c : ∀ {x : Nat}, 0 < x → (x : K) ≠ 0 := fun h => Nat.cast_ne_zero.2 (by omega)
+  have e : (images l1 m1 n1 a).flatMap (images l2 m2 n2)
+      = ((ijkList l1 m1 n1).flatMap fun t1 => (ijkList l2 m2 n2).map (comb l1 m1 n1 t1)).map
+          (image (l1 * l2) (m1 * m2) (n1 * n2) a) := by
+    simp only [images, List.flatMap_map, List.map_flatMap, List.map_map]
+    refine List.flatMap_congr fun t1 _ => List.map_congr_left fun t2 _ => ?_
+    exact image_image a (c h1) (c h2) (c h3) (c h4) (c h5) (c h6) t1 t2
+  rw [e]
+  exact (comb_perm l2 m2 n2 h1 h2 h3).map _
+
+theorem two_step_atoms (as : List (Atom K β)) {l1 m1 n1 l2 m2 n2 : Nat} (h1 : 0 < l1) (h2 : 0 < m1)
+    (h3 : 0 < n1) (h4 : 0 < l2) (h5 : 0 < m2) (h6 : 0 < n2) [CharZero K] :
+    ((as.flatMap (images l1 m1 n1)).flatMap (images l2 m2 n2)).Perm
+      (as.flatMap (images (l1 * l2) (m1 * m2) (n1 * n2))) := by
+  rw [List.flatMap_assoc]
+  exact List.Perm.flatMap_left _ fun a _ => two_step_images a h1 h2 h3 h4 h5 h6
+
+theorem scale_scale (L : Cell K) (l1 m1 n1 l2 m2 n2 : Nat) :
+    (L.scale l1 m1 n1).scale l2 m2 n2 = L.scale (l1 * l2) (m1 * m2) (n1 * n2) := by
+  cases L
+  simp only [Cell.scale, Cell.mk.injEq, and_true]
+  push_cast
+  refine ⟨?_, ?_, ?_⟩ <;> ring
+
+end twostep
+
+/-! ### rejection -/
+section reject
+variable {α β : Type} [Add α] [Mul α] [Div α] [NatCast α]
+
+theorem list3 {γ : Type} (xs : List γ) (h : xs.length = 3) : ∃ a b c, xs = [a, b, c] := by
+  rcases xs with _ | ⟨a, _ | ⟨b, _ | ⟨c, _ | ⟨d, t⟩⟩⟩⟩ <;> simp at h ⊢
+
+theorem supercell_three (S : Stru α β) (l m n : Int) :
+    supercell S [l, m, n] =
+      if min l (min m n) < 1 then .error .ValueError
+      else if (l.toNat, m.toNat, n.toNat) = (1, 1, 1) then .ok S
+      else .ok (supercellGen S l.toNat m.toNat n.toNat) := by
+  simp [supercell]
+
+theorem supercell_badlen (S : Stru α β) (mno : List Int) (h : mno.length ≠ 3) :
+    supercell S mno = .error .ValueError := by
+  simp [supercell, h]
+
+theorem supercell_error (S : Stru α β) (mno : List Int) :
+    (∃ e, supercell S mno = .error e) ↔ (mno.length ≠ 3 ∨ ∃ x ∈ mno, x < 1) := by
+  by_cases hlen : mno.length ≠ 3
+  · simp [supercell_badlen S mno hlen, hlen]
+  · obtain ⟨l, m, n, rfl⟩ := list3 mno (by simpa using hlen)
+    rw [supercell_three]
+    simp only [List.length_cons, List.length_nil, ne_eq, not_true_eq_false, false_or, List.mem_cons,
+      List.not_mem_nil, or_false, exists_eq_or_imp, exists_eq_left]
+    by_cases hmin : min l (min m n) < 1
+    · simp only [hmin, if_true]
+      exact ⟨fun _ => by omega, fun _ => ⟨_, rfl⟩⟩
+    · simp only [hmin, if_false]
+      constructor
+      · rintro ⟨e, he⟩; split at he <;> cases he
+      · intro h; omega
+
+theorem supercell_error_kind (S : Stru α β) (mno : List Int) (e : Err) (h : supercell S mno = .error e) :
+    e = .ValueError := by
+  by_cases hlen : mno.length ≠ 3
+  · rw [supercell_badlen S mno hlen] at h; cases h; rfl
+  · obtain ⟨l, m, n, rfl⟩ := list3 mno (by simpa using hlen)
+    rw [supercell_three] at h
+    split at h
+    · cases h; rfl
+    · split at h <;> cases h
+
+theorem supercell_ok_inv (S : Stru α β) (mno : List Int) (T : Stru α β) (h : supercell S mno = .ok T) :
+    ∃ l m n : Nat, 1 ≤ l ∧ 1 ≤ m ∧ 1 ≤ n ∧ mno = [(l : Int), (m : Int), (n : Int)] := by
+  have hne : ¬ ∃ e, supercell S mno = .error e := by rintro ⟨e, he⟩; rw [h] at he; cases he
+  rw [supercell_error] at hne
+  simp only [not_or, not_exists, not_and, ne_eq, not_not, not_lt] at hne
+  obtain ⟨hlen, hall⟩ := hne
+  obtain ⟨l, m, n, rfl⟩ := list3 mno hlen
+  have hl := hall l (by simp); have hm := hall m (by simp); have hn := hall n (by simp)
+  exact ⟨l.toNat, m.toNat, n.toNat, by omega, by omega, by omega, by
+    simp only [List.cons.injEq, and_true]; omega⟩
+end reject
+
+/-! ### fresh allocation -/
+section heap
+variable {α β : Type}
+
+theorem read_fresh (A B : List (Atom α β)) :
+    (List.range' A.length B.length).filterMap (fun i => (A ++ B)[i]?) = B := by
+  induction B generalizing A with
+  | nil => simp
+  | cons b B ih =>
+    have h := ih (A ++ [b])
+    simp only [List.length_append, List.length_cons, List.length_nil, List.append_assoc,
+      List.cons_append, List.nil_append, Nat.zero_add] at h
+    simp only [List.length_cons, List.range'_succ, List.filterMap_cons]
+    rw [List.getElem?_append_right (Nat.le_refl _)]
+    simp only [Nat.sub_self, List.getElem?_cons_zero]
+    rw [h]
+
+theorem read_old (A B : List (Atom α β)) (refs : List Nat) (h : ∀ r ∈ refs, r < A.length) :
+    refs.filterMap (fun i => (A ++ B)[i]?) = refs.filterMap (fun i => A[i]?) := by
+  induction refs with
+  | nil => rfl
+  | cons r rs ih =>
+    have hr := h r (by simp)
+    simp only [List.filterMap_cons, List.getElem?_append_left hr]
+    rw [ih (fun x hx => h x (by simp [hx]))]
+
+end heap
+
+
+/-! ### findCenter / makeEllipsoid: control flow (any scalar type) -/
+section flow
+variable {α β : Type} [Add α] [Mul α] [Sub α] [Neg α] [Div α] [OfNat α 0] [OfNat α 1] [OfNat α 2]
+  [Elem α] [NatCast α] [LT α] [DecidableRel (α := α) (· < ·)] [IntCeil α]
+
+theorem findCenterAux_bound (L : Cell α) (as : List (Atom α β)) (i : Nat) (best : Option Nat) (bestd : α)
+    (j : Nat) (h : findCenterAux L as i best bestd = some j) :
+    best = some j ∨ (i ≤ j ∧ j < i + as.length) := by
+  induction as generalizing i best bestd with
+  | nil => left; simpa [findCenterAux] using h
+  | cons a as ih =>
+    simp only [findCenterAux] at h
+    split at h
+    · rcases ih _ _ _ h with h' | h'
+      · right; cases h'; simp
+      · right; simp only [List.length_cons]; omega
+    · rcases ih _ _ _ h with h' | h'
+      · left; exact h'
+      · right; simp only [List.length_cons]; omega
+
+theorem findCenter_lt (T : Stru α β) (j : Nat) (h : findCenter T = some j) : j < T.atoms.length := by
+  rcases findCenterAux_bound _ _ _ _ _ _ h with h' | h'
+  · cases h'
+  · omega
+
+theorem centreIndex_lt (T : Stru α β) (nc : Nat) (h : centreIndex T = some nc) : nc < T.atoms.length := by
+  unfold centreIndex at h
+  split at h
+  · next i hi => cases h; exact findCenter_lt T _ hi
+  · split at h
+    · cases h
+    · cases h; omega
+
+theorem ellipsoidWith_ok (S : Stru α β) (sabc : Vec3 α) (k : Int) (R : Stru α β)
+    (h : ellipsoidWith S sabc k = .ok R) :
+    ∃ T nc ca, supercell S [k, k, k] = .ok T ∧ centreIndex T = some nc ∧ T.atoms[nc]? = some ca ∧
+      R = ⟨T.cell, T.atoms.filter (keeps T.cell sabc (T.cell.cartesian ca.xyz))⟩ := by
+  unfold ellipsoidWith at h
+  split at h
+  · cases h
+  · next T hT =>
+    split at h
+    · cases h
+    · next nc hnc =>
+      unfold cutWith at h
+      split at h
+      · cases h
+      · next ca hca =>
+        cases h
+        exact ⟨T, nc, ca, hT, hnc, hca, rfl⟩
+
+/-- the only errors: `ValueError` from `supercell` (block multiplier < 1), `IndexError` (no atoms) -/
+theorem ellipsoidWith_error (S : Stru α β) (sabc : Vec3 α) (k : Int) (e : Err)
+    (h : ellipsoidWith S sabc k = .error e) :
+    (e = .ValueError ∧ k < 1) ∨ (e = .IndexError ∧ S.atoms = [] ∧ 1 ≤ k) := by
+  unfold ellipsoidWith at h
+  split at h
+  · next e' he' =>
+    cases h
+    left
+    refine ⟨supercell_error_kind _ _ _ he', ?_⟩
+    have := (supercell_error S [k, k, k]).1 ⟨_, he'⟩
+    simpa using this
+  · next T hT =>
+    have hk : 1 ≤ k := by
+      obtain ⟨l, m, n, hl, _, _, hmno⟩ := supercell_ok_inv _ _ _ hT
+      simp only [List.cons.injEq, and_true] at hmno
+      omega
+    split at h
+    · next hnc =>
+      cases h
+      right
+      refine ⟨rfl, ?_, hk⟩
+      have hT0 : T.atoms = [] := by
+        unfold centreIndex at hnc
+        split at hnc
+        · cases hnc
+        · split at hnc
+          · next h0 => exact List.eq_nil_of_length_eq_zero h0
+          · cases hnc
+      rw [supercell_three] at hT
+      split at hT
+      · cases hT
+      · split at hT
+        · cases hT; exact hT0
+        · cases hT
+          simp only [supercellGen, List.flatMap_eq_nil_iff] at hT0
+          by_contra hne
+          obtain ⟨a, as, hS⟩ := List.exists_cons_of_ne_nil hne
+          have := hT0 a (by simp [hS])
+          have hlen := congrArg List.length this
+          simp only [images, List.length_map, length_ijkList, List.length_nil] at hlen
+          have : 0 < k.toNat * k.toNat * k.toNat := by
+            have : 0 < k.toNat := by omega
+            positivity
+          omega
+    · next nc hnc =>
+      unfold cutWith at h
+      split at h
+      · next hnone =>
+        have := centreIndex_lt T nc hnc
+        simp only [List.getElem?_eq_none_iff] at hnone
+        omega
+      · cases h
+
+end flow
+
+/-! ### no site twice -/
+section nodup
+variable {K β : Type} [Field K] [CharZero K]
+
+/-- two fractional positions denote the same crystal site up to a lattice translation -/
+def LatEquiv (u v : Vec3 K) : Prop :=
+  ∃ p q r : ℤ, u.x - v.x = p ∧ u.y - v.y = q ∧ u.z - v.z = r
+
+theorem image_xyz_inj (a : Atom K β) {l m n : Nat} (hl : 0 < l) (hm : 0 < m) (hn : 0 < n)
+    (t t' : Nat × Nat × Nat) (h : (image l m n a t).xyz = (image l m n a t').xyz) : t = t' := by
+  have c : ∀ {x : Nat}, 0 < x → (x : K) ≠ 0 := fun h => Nat.cast_ne_zero.2 (by omega)
+  obtain ⟨i, j, k⟩ := t
+  obtain ⟨i', j', k'⟩ := t'
+  simp only [image, Vec3.mk.injEq] at h
+  obtain ⟨h1, h2, h3⟩ := h
+  rw [div_left_inj' (c hl), add_right_inj, Nat.cast_inj] at h1
+  rw [div_left_inj' (c hm), add_right_inj, Nat.cast_inj] at h2
+  rw [div_left_inj' (c hn), add_right_inj, Nat.cast_inj] at h3
+  simp [h1, h2, h3]
+
+theorem image_xyz_latEquiv (a b : Atom K β) {l m n : Nat} (hl : 0 < l) (hm : 0 < m) (hn : 0 < n)
+    (t t' : Nat × Nat × Nat) (h : (image l m n a t).xyz = (image l m n b t').xyz) :
+    LatEquiv a.xyz b.xyz := by
+  have c : ∀ {x : Nat}, 0 < x → (x : K) ≠ 0 := fun h => Nat.cast_ne_zero.2 (by omega)
+  simp only [image, Vec3.mk.injEq] at h
+  obtain ⟨h1, h2, h3⟩ := h
+  rw [div_left_inj' (c hl)] at h1
+  rw [div_left_inj' (c hm)] at h2
+  rw [div_left_inj' (c hn)] at h3
+  refine ⟨(t'.1 : ℤ) - t.1, (t'.2.1 : ℤ) - t.2.1, (t'.2.2 : ℤ) - t.2.2, ?_, ?_, ?_⟩ <;> push_cast
+  · linear_combination h1
+  · linear_combination h2
+  · linear_combination h3
+
+theorem nodup_xyz_images (as : List (Atom K β)) {l m n : Nat} (hl : 0 < l) (hm : 0 < m) (hn : 0 < n)
+    (h : as.Pairwise (fun a b => ¬ LatEquiv a.xyz b.xyz)) :
+    ((as.flatMap (images l m n)).map (·.xyz)).Nodup := by
+  rw [List.map_flatMap]
+  refine List.nodup_flatMap.2 ⟨fun a _ => ?_, ?_⟩
+  · simp only [images, List.map_map]
+    refine (nodup_ijkList l m n).map_on ?_
+    intro t _ t' _ ht
+    exact image_xyz_inj a hl hm hn t t' ht
+  · refine h.imp ?_
+    intro a b hab
+    simp only [Function.onFun, List.disjoint_left, images, List.map_map, List.mem_map, Function.comp]
+    rintro x ⟨t, _, rfl⟩ ⟨t', _, ht'⟩
+    exact hab (image_xyz_latEquiv a b hl hm hn t t' ht'.symm)
+
+end nodup
+
+/-! ### the ellipsoid test over ℝ -/
+noncomputable instance : IntCeil ℝ := ⟨fun x => ⌈x⌉⟩
+
+section real
+variable {β : Type}
+
+/-- `(x/a)² + (y/b)² + (z/c)²` of a Cartesian point relative to the centre -/
+noncomputable def ellQ (sabc c r : Vec3 ℝ) : ℝ :=
+  ((r.x - c.x) / sabc.x) ^ 2 + ((r.y - c.y) / sabc.y) ^ 2 + ((r.z - c.z) / sabc.z) ^ 2
+
+theorem ellQ_nonneg (sabc c r : Vec3 ℝ) : 0 ≤ ellQ sabc c r := by unfold ellQ; positivity
+
+theorem ellD_eq (sabc c r : Vec3 ℝ) : ellD sabc c r = Real.sqrt (ellQ sabc c r) := by
+  simp only [ellD, ellQ, Elem.sqrt]
+  congr 1; ring
+
+theorem keeps_iff (L : Cell ℝ) (sabc c : Vec3 ℝ) (a : Atom ℝ β) :
+    keeps L sabc c a = true ↔ ellQ sabc c (L.cartesian a.xyz) ≤ 1 := by
+  simp only [keeps, Bool.not_eq_true', decide_eq_false_iff_not, not_lt, ellD_eq]
+  rw [Real.sqrt_le_left (by norm_num : (0 : ℝ) ≤ 1)]
+  norm_num
+
+theorem ellQ_self (sabc c : Vec3 ℝ) : ellQ sabc c c = 0 := by simp [ellQ]
+
+/-- a fractional position inside the unit cell `[0,1)³` -/
+def InCell (u : Vec3 ℝ) : Prop := 0 ≤ u.x ∧ u.x < 1 ∧ 0 ≤ u.y ∧ u.y < 1 ∧ 0 ≤ u.z ∧ u.z < 1
+
+theorem int_of_small {p : ℤ} {x y : ℝ} (hx0 : 0 ≤ x) (hx1 : x < 1) (hy0 : 0 ≤ y) (hy1 : y < 1)
+    (h : x - y = p) : x = y := by
+  have h1 : (p : ℝ) < 1 := by linarith
+  have h2 : (-1 : ℝ) < p := by linarith
+  have h1' : p < 1 := by exact_mod_cast h1
+  have h2' : -1 < p := by exact_mod_cast h2
+  have : p = 0 := by omega
+  subst this
+  simp at h; linarith
+
+theorem latEquiv_inCell {u v : Vec3 ℝ} (hu : InCell u) (hv : InCell v) (h : LatEquiv u v) : u = v := by
+  obtain ⟨p, q, r, h1, h2, h3⟩ := h
+  obtain ⟨a1, a2, a3, a4, a5, a6⟩ := hu
+  obtain ⟨b1, b2, b3, b4, b5, b6⟩ := hv
+  cases u; cases v
+  simp only [Vec3.mk.injEq]
+  exact ⟨int_of_small a1 a2 b1 b2 h1, int_of_small a3 a4 b3 b4 h2, int_of_small a5 a6 b5 b6 h3⟩
+
+/-- `0 ≤ x < 1 ∧ 0 ≤ (x+n)/m < 1 → 0 ≤ n < m` -/
+theorem box_arith {x : ℝ} {n : ℤ} {m : ℕ} (hm : 0 < m) (hx0 : 0 ≤ x) (hx1 : x < 1)
+    (h0 : 0 ≤ (x + n) / m) (h1 : (x + n) / m < 1) : 0 ≤ n ∧ n < (m : ℤ) := by
+  have hm' : (0 : ℝ) < m := by exact_mod_cast hm
+  rw [le_div_iff₀ hm'] at h0
+  rw [div_lt_one hm'] at h1
+  have a : (-1 : ℝ) < n := by linarith
+  have b : (n : ℝ) < m := by linarith
+  have a' : -1 < n := by exact_mod_cast a
+  have b' : n < (m : ℤ) := by exact_mod_cast b
+  exact ⟨by omega, b'⟩
+
+end real
 
 end DS.Expand
